@@ -13,7 +13,7 @@ ID = 'C15'
 
 MANIFEST = {
     'engine': 'symx',
-    'text': 'Bounded symbolic model checking of the real count-min sketch source (cms_hash, _add, add, batch_add, query): the hash value of every item, the per-row seeds, the item chosen at every update and its non-negative weight are symbolic; after every prefix of the stream z3 shows true weight <= query(x) <= total weight and that every row sums to the total. The bounded counter is driven through every item stream within the bound (items chosen by solver decisions) against an exact recount. The same three bounded-counter clauses are also explored through compute_cardinalities over every split of a 4-value stream into mini-batches; fixed-width (uint32) array arithmetic wraps as in numpy.',
+    'text': 'Bounded symbolic model checking of the real count-min sketch source (cms_hash, _add, add, batch_add, query): the hash value of every item (opaque items: any 64-bit value; int items: the value is symbolic and its hash follows the CPython rule, -1 -> -2, reduction mod 2^61-1), the per-row seeds, the item chosen at every update and its non-negative weight are symbolic; after every prefix of the stream z3 shows true weight <= query(x) <= total weight and that every row sums to the total. The bounded counter is driven through every item stream within the bound (items chosen by solver decisions) against an exact recount. The same three bounded-counter clauses are also explored through compute_cardinalities over every split of a 4-value stream into mini-batches; fixed-width (uint32) array arithmetic wraps as in numpy.',
     'note': 'Streams of <=3 (quick) / <=4 (thorough) updates over 3 items, depth<=2, width<=3, weights 0..5; int32 cell overflow outside (totals < 2^31); the numba-level integer arithmetic of cms_hash is validated against the Python-level model ((hash mod 2^32)+seed) mod width on concrete boundary values before the symbolic run; batch_add of the bounded counter is outside (the statement says item by item).',
     'technique': 'symbolic execution of the real Python source with z3 (hash values and seeds as unconstrained 32-bit integers, matrix cells as If-merged terms)',
 }
@@ -60,16 +60,48 @@ class Item:
         self.h = h
 
 
+PYHASH_P = 2 ** 61 - 1
+
+
+class IntItem(Item):
+    """an item that IS a Python int (value v symbolic): hash(v) = sign(v) * (|v| mod (2^61 - 1)), with -1 mapped to -2 (CPython);
+    inside the loaded module isinstance(item, int), int(item) and hash(item) behave as for that int"""
+
+    def __init__(self, v):
+        self.v = v
+        h = z3.IntVal(hash(INT_VALUES[-1]))
+        for c in INT_VALUES[-2::-1]:
+            h = z3.If(v.e == c, z3.IntVal(hash(c)), h)      # the value ranges over INT_VALUES: its hash is CPython's own hash() of each
+        self.h = SInt.mk(h, -PYHASH_P, PYHASH_P)
+
+
+# int items take their value from here: small values (incl. -1, whose hash is -2), values around the hash modulus and around 2^32
+INT_VALUES = sorted(set(list(range(-3, 4)) + [s * (PYHASH_P + k) for s in (1, -1) for k in range(-2, 3)] + [2 ** 32 + k for k in range(-2, 3)]))
+
+
+def _isinstance(o, t):
+    ts = tuple(int if x is _int else x for x in (t if isinstance(t, tuple) else (t,)))      # inside the module the name int is _int
+    t = ts if isinstance(t, tuple) else ts[0]
+    if isinstance(o, IntItem):
+        return any(x is int or getattr(x, '__name__', '') in ('integer', 'int64', 'signedinteger') for x in ts)
+    return isinstance(o, t)
+
+
+def _int(x, *a):
+    return x.v if isinstance(x, IntItem) else int(x, *a)
+
+
 def load_cms():
     npm = types.ModuleType('numpy')
     npm.uint32 = lambda x: x % (2 ** 32)
     npm.int32 = 'int32'
+    npm.integer = type('integer', (), {})
     npm.zeros = lambda shape, dtype=None: Mat(*shape)
     npm.array = lambda x, dtype=None: x
     npm.arange = xnp.arange
     npm.random = types.SimpleNamespace(randint=lambda **k: [0] * k['size'])
     ns = loader.load('outrank/algorithms/sketches/counting_cms.py', shims={'numpy': npm, 'numba': loader.numba_stub()},
-                     extra={'hash': lambda it: it.h}, record=['cms_hash', 'CountMinSketch', 'CountMinSketch._add', 'CountMinSketch.add', 'CountMinSketch.batch_add', 'CountMinSketch.query'])
+                     extra={'hash': lambda it: it.h, 'isinstance': _isinstance, 'int': _int}, record=['cms_hash', 'CountMinSketch', 'CountMinSketch._add', 'CountMinSketch.add', 'CountMinSketch.batch_add', 'CountMinSketch.query'])
     return ns
 
 
@@ -96,6 +128,8 @@ def jobs(tier):
     out = []
     for d, w, s in BOUNDS[tier]['cms']:
         out.append({'cond': 'cms', 'd': d, 'w': w, 's': s, 'weight': (w ** d) ** NITEMS * s, 'label': f'd={d},w={w},s={s}'})
+        if (d, w, s) in BOUNDS[tier]['cms'][1:3]:
+            out.append({'cond': 'cms', 'd': d, 'w': w, 's': s, 'ints': True, 'weight': (w ** d) ** NITEMS * s, 'label': f'd={d},w={w},s={s}, int items (value symbolic, CPython int hash)'})
     for s, bd in BOUNDS[tier]['counter']:
         for b in range(bd + 1):
             out.append({'cond': 'counter', 's': s, 'bound': b, 'weight': 4 ** s, 'label': f's={s},bound={b}'})
@@ -114,6 +148,10 @@ def run_cms(job):
         st['h'] = [z3.Int(f'h{i}') for i in range(NITEMS)]
         for v in st['h']:
             ctx.assume(v >= -2 ** 63, v < 2 ** 63)
+        if job.get('ints'):
+            # int items: h{i} is the int's VALUE
+            for v in st['h']:
+                ctx.assume(z3.Or([v == c for c in INT_VALUES]))
         st['seed'] = [z3.Int(f'seed{i}') for i in range(d)]
         for v in st['seed']:
             ctx.assume(v >= 0, v < 2 ** 32)
@@ -126,7 +164,7 @@ def run_cms(job):
 
     def wit(m):
         g = lambda v: m.eval(v, model_completion=True).as_long()
-        return {'cond': 'cms', 'd': d, 'w': w, 'hash': [g(v) for v in st['h']], 'seeds': [g(v) for v in st['seed']],
+        return {'cond': 'cms', 'd': d, 'w': w, 'ints': bool(job.get('ints')), 'hash': [g(v) for v in st['h']], 'seeds': [g(v) for v in st['seed']],
                 'stream': [[g(i), g(x)] for i, x in zip(st['idx'], st['wt'])]}
 
     def body(ctx, out):
@@ -134,12 +172,13 @@ def run_cms(job):
         o.depth, o.width = d, w
         o.hash_seeds = xnp.Arr([SInt(v, 0, 2 ** 32 - 1) for v in st['seed']], 'uint32')      # a uint32 numpy array in the real object
         o.M = Mat(d, w)
-        items = [Item(SInt(h, -2 ** 63, 2 ** 63 - 1)) for h in st['h']]
+        mk = (lambda e: IntItem(SInt(e, -2 ** 63, 2 ** 63 - 1))) if job.get('ints') else (lambda e: Item(SInt(e, -2 ** 63, 2 ** 63 - 1)))
+        items = [mk(h) for h in st['h']]
         for k in range(S):
             hk = st['h'][NITEMS - 1]
             for j in range(NITEMS - 2, -1, -1):
                 hk = z3.If(st['idx'][k] == j, st['h'][j], hk)
-            it = Item(SInt(hk, -2 ** 63, 2 ** 63 - 1))
+            it = mk(hk)
             if k % 2 == 0:
                 o.add(it, SInt(st['wt'][k], 0, WMAX))
             else:
@@ -270,7 +309,7 @@ def replay(w):
     cms = CountMinSketch(d, wd)
     cms.hash_seeds = np.array(w['seeds'], dtype=np.uint32)
     # ints hash to themselves (mod 2^61-1), so an int item realises any wanted hash value modulo 2^32
-    items = [h % (2 ** 32) for h in w['hash']]
+    items = list(w['hash']) if w.get('ints') else [h % (2 ** 32) for h in w['hash']]
     true = Counter()
     total = 0
     for k, (i, wt) in enumerate(w['stream']):
